@@ -36,7 +36,7 @@ MIN_NONTRIVIAL = {"quick": 300, "thorough": 6000}
 REACH_FLOORS = {"examples_expected": 1000, "cases_drawn": 800, "engine_runs": 5, "operations_without_examples": 20}
 SHARD_TIMEOUT = {"quick": 900, "thorough": 5400}
 
-PLACEMENTS = ["param_example", "param_examples", "param_schema_example", "param_schema_examples", "media_example", "media_examples", "media_examples_ref", "body_schema_example", "property_example", "branch_example", "falsy_property_example", "allof_property_example", "unsendable_header_example", "untyped_nested_property_example", "both_combinators_example"]
+PLACEMENTS = ["param_example", "param_examples", "param_schema_example", "param_schema_examples", "media_example", "media_examples", "media_examples_ref", "body_schema_example", "property_example", "branch_example", "falsy_property_example", "allof_property_example", "unsendable_header_example", "untyped_nested_property_example", "both_combinators_example", "allof_boolean_member_example"]
 
 
 def plan(tier, seed):
@@ -161,6 +161,11 @@ def gen_document(rng, version):
         body_schema["properties"]["shape"] = {"type": "string", "anyOf": [{"minLength": 1, "example": va}], "oneOf": [{"maxLength": 40, "example": vo}]}
         expected.append({"op": label, "where": ("body", ("prop", "shape")), "value": va, "placement": "both_combinators_example"})
         expected.append({"op": label, "where": ("body", ("prop", "shape")), "value": vo, "placement": "both_combinators_example"})
+    if "allof_boolean_member_example" in chosen and version == "3.1":
+        # boolean schemas are legal from OpenAPI 3.1 (JSON Schema 2020-12) on; `true` is a schema like any other: as the first member of allOf it must not hide the example of the next member
+        v = marker.string()
+        body_schema["properties"]["note"] = {"allOf": [True, {"type": "string", "example": v}]}
+        expected.append({"op": label, "where": ("body", ("prop", "note")), "value": v, "placement": "allof_boolean_member_example"})
     if "items_example" in chosen:
         v = marker.string()
         body_schema["properties"]["tags"]["items"]["example"] = v
